@@ -94,8 +94,43 @@ def tag_opts(f):
 
 # ---------------------------------------------------------------- values (GoVal) and settings (GoData)
 
+def _fbits(x):
+    import struct
+    return struct.unpack(">Q", struct.pack(">d", float(x)))[0]
+
+
+def num_bounds(vtag):
+    """(min, max) of a validate tag when they are plain numbers"""
+    mn = mx = None
+    for part in vtag.replace(" ", "").split(","):
+        for key in ("min=", "max="):
+            if part.startswith(key):
+                try:
+                    val = float(part[len(key):])
+                except ValueError:
+                    continue
+                if key == "min=": mn = val
+                else: mx = val
+    return mn, mx
+
+
 def good_scalar(rng, t, vtag=""):
-    """(GoVal, GoData) of a value of primitive kind t that satisfies typical validators (small positive numbers)"""
+    """(GoVal, GoData) of a value of primitive kind t that satisfies typical validators: small positive numbers, and in
+    a third of the cases a value exactly on the inside of a declared bound (the bound itself, 0 for `positive`)"""
+    mn, mx = num_bounds(vtag)
+    edge = rng.chance(0.35) and t in INT_KINDS + UINT_KINDS + FLOAT_KINDS
+    if edge:
+        cand = []
+        if mn is not None and mn == int(mn) and (mx is None or mn <= mx): cand.append(int(mn))
+        if mx is not None and mx == int(mx) and (mn is None or mn <= mx): cand.append(int(mx))
+        if "positive" in vtag and "nonzero" not in vtag and "required" not in vtag and mn is None: cand.append(0)
+        cand = [c for c in cand if c >= 0 or t not in UINT_KINDS]
+        cand = [c for c in cand if not ((("nonzero" in vtag) or ("required" in vtag)) and c == 0)]
+        if cand:
+            x = rng.pick(cand)
+            if t in INT_KINDS: return {"i": str(x)}, (U(x) if x > 0 else I(x))
+            if t in UINT_KINDS: return {"u": str(x)}, U(x)
+            return {"f": "%016x" % _fbits(x)}, F(_fbits(x))
     if t in INT_KINDS:
         x = 3 + rng.below(5)
         return {"i": str(x)}, U(x)
@@ -221,17 +256,25 @@ def setting_for(rng, ty, depth, fault=None, path=(), vtag=""):
 
 def violating(rng, t, vtag):
     v = vtag.replace(" ", "")
-    if t in INT_KINDS + FLOAT_KINDS:
-        if "positive" in v: return I(-2)
-        if "min=" in v: return I(-1) if t in INT_KINDS + FLOAT_KINDS else None
-        if "max=" in v: return U(1000) if t not in ("int8",) else U(100)
+    mn, mx = num_bounds(vtag)
+    # values just beyond the declared bound (and a far one now and then)
+    if t in INT_KINDS:
+        if "positive" in v: return rng.pick([I(-1), I(-1), I(-2)])
+        if mn is not None and "min=" in v: return I(int(mn) - 1) if rng.chance(0.7) else I(-1)
+        if mx is not None and "max=" in v: return U(int(mx) + 1) if rng.chance(0.7) else (U(1000) if t != "int8" else U(100))
         if "nonzero" in v or "required" in v: return I(0)
+    if t in FLOAT_KINDS:
+        if "positive" in v: return rng.pick([F(_fbits(-0.5)), F(_fbits(-1e-9)), I(-1), I(-2)])
+        if mn is not None and "min=" in v: return rng.pick([F(_fbits(mn - 0.5)), F(_fbits(mn - 1e-6)), I(int(mn) - 1)])
+        if mx is not None and "max=" in v: return rng.pick([F(_fbits(mx + 0.5)), F(_fbits(mx + 1e-6)), U(int(mx) + 1)])
+        if "nonzero" in v or "required" in v: return rng.pick([I(0), F(_fbits(-0.0)), F(0)])
     if t in UINT_KINDS:
-        if "max=" in v: return U(200)
+        if mx is not None and "max=" in v: return U(int(mx) + 1) if rng.chance(0.7) else U(200)
         if "nonzero" in v or "required" in v: return I(0)
-        if "min=" in v and "min=0" not in v: return I(0)
+        if mn is not None and "min=" in v and mn >= 1: return U(int(mn) - 1)
     if t == "duration":
-        if "positive" in v: return I(-5)
+        if "positive" in v: return rng.pick([I(-5), S("-1ns"), S("-999us"), S("-1ms")])
+        if v == "min=2" or "min=2," in v: return rng.pick([S("1999ms"), U(1), S("1.999999999s")])
         # bounds given as fractional seconds: values between the bound and its truncation to whole seconds
         if "min=0.5" in v: return S(rng.pick(["100ms", "499ms", "0s"]))
         if "min=1.5" in v: return S(rng.pick(["1s", "1400ms", "1.2s"]))
@@ -340,9 +383,17 @@ def fault_points(ty, cfg, path=(), vtag=""):
         if t in UINT_KINDS:
             out.append((path, "out-of-range", I(-3)))
         if vtag:
-            class R:                       # deterministic picks inside violating()
-                def pick(self, xs): return xs[0]
-            bad = violating(R(), t, vtag)
+            class R:                       # picks inside violating(): a function of the position (no generator state here)
+                def __init__(self, seed):
+                    import zlib
+                    self.h = zlib.crc32(seed.encode())
+                def pick(self, xs):
+                    self.h = (self.h * 1103515245 + 12345) & 0x7fffffff
+                    return xs[self.h % len(xs)]
+                def chance(self, p):
+                    self.h = (self.h * 1103515245 + 12345) & 0x7fffffff
+                    return (self.h % 1000) < p * 1000
+            bad = violating(R("/".join(path) + "|" + vtag + "|" + t + "|" + str(len(str(cfg)))), t, vtag)
             if bad is not None:
                 out.append((path, "validator", bad))
         return out
